@@ -121,12 +121,13 @@ EmptyJ(j) == \/ j.t = "null"
 
 RECURSIVE Marshal(_, _, _, _)
 Marshal(t, v, o, st) ==
-    IF t.k = "bool" THEN (IF st.key THEN ERR ELSE [t |-> "bool", b |-> v.b])
-    ELSE IF t.k = "str" THEN [t |-> "str", s |-> v.s]
+    \* the `string` option is for numbers (possibly behind pointers): anything else is an error
+    IF t.k = "bool" THEN (IF st.key \/ st.tag THEN ERR ELSE [t |-> "bool", b |-> v.b])
+    ELSE IF t.k = "str" THEN (IF st.tag THEN ERR ELSE [t |-> "str", s |-> v.s])
     ELSE IF t.k = "int" THEN NumJ(IntLit(v), o.sn \/ st.tag \/ st.key)
     ELSE IF t.k = "float" THEN NumJ(FloatLit(v), o.sn \/ st.tag \/ st.key)
     ELSE IF t.k = "ptr" THEN (IF v.nil THEN (IF st.key THEN ERR ELSE JNull) ELSE Marshal(t.e, v.e, o, st))
-    \* the `string` option is for numbers (possibly behind pointers) only; composites are no names
+    \* composites are no numbers and no names
     ELSE IF st.tag \/ st.key THEN ERR
     ELSE IF t.k = "any" THEN (IF v.nil THEN JNull ELSE Marshal(v.dt, v.e, o, NoSt))
     ELSE IF t.k = "slice" /\ v.nil /\ o.nsn THEN JNull
@@ -218,7 +219,7 @@ Unmarshal(t, old, j, o, st) ==
          IF j.t = "null" THEN OK([nil |-> TRUE])
          ELSE LET r == Unmarshal(t.e, IF old.nil THEN Zero(t.e) ELSE old.e, j, o, st) IN
               IF r.ok THEN OK([nil |-> FALSE, e |-> r.v]) ELSE FAIL
-    ELSE IF t.k \in {"slice", "array", "map", "struct", "any"} /\ st.tag THEN FAIL
+    ELSE IF t.k \notin {"int", "float"} /\ st.tag THEN FAIL
     ELSE IF j.t = "null" THEN OK(Zero(t))
     ELSE IF t.k = "bool" THEN (IF j.t = "bool" THEN OK([b |-> j.b]) ELSE FAIL)
     ELSE IF t.k = "str" THEN (IF j.t = "str" THEN OK([s |-> j.s]) ELSE FAIL)
@@ -305,16 +306,25 @@ MergeJ(a, b) ==
          [t |-> "obj", m |-> kept \o added]
     ELSE b
 
-\* ------------------------------------------------------------------ equality up to nil/empty containers
-\* what Marshal/Unmarshal cannot tell apart under the default options: a nil and an empty
-\* slice or map
-RECURSIVE Norm(_, _)
-Norm(t, v) ==
-    CASE t.k = "slice" -> [nil |-> FALSE, e |-> [i \in 1..Len(v.e) |-> Norm(t.e, v.e[i])]]
-      [] t.k = "array" -> [e |-> [i \in 1..Len(v.e) |-> Norm(t.e, v.e[i])]]
-      [] t.k = "map" -> [nil |-> FALSE, m |-> [i \in 1..Len(v.m) |-> <<v.m[i][1], Norm(t.e, v.m[i][2])>>]]
-      [] t.k = "ptr" -> IF v.nil THEN v ELSE [nil |-> FALSE, e |-> Norm(t.e, v.e)]
-      [] t.k = "any" -> IF v.nil THEN v ELSE [nil |-> FALSE, dt |-> v.dt, e |-> Norm(v.dt, v.e)]
-      [] t.k = "struct" -> [f |-> [i \in 1..Len(t.f) |-> Norm(t.f[i].t, v.f[i])]]
+\* ------------------------------------------------------------------ equality up to what JSON cannot tell apart
+\* a value that is written as null: a nil pointer or interface, a pointer to such a value, and
+\* under the FormatNil*AsNull options a nil slice or map
+RECURSIVE Nullish(_, _, _)
+Nullish(t, v, o) ==
+    CASE t.k = "ptr" -> v.nil \/ Nullish(t.e, v.e, o)
+      [] t.k = "any" -> v.nil \/ Nullish(v.dt, v.e, o)
+      [] t.k = "slice" -> v.nil /\ o.nsn
+      [] t.k = "map" -> v.nil /\ o.nmn
+      [] OTHER -> FALSE
+
+\* nil and empty slices and maps are identified, and so are all values written as null
+RECURSIVE Norm(_, _, _)
+Norm(t, v, o) ==
+    CASE t.k = "slice" -> [nil |-> FALSE, e |-> [i \in 1..Len(v.e) |-> Norm(t.e, v.e[i], o)]]
+      [] t.k = "array" -> [e |-> [i \in 1..Len(v.e) |-> Norm(t.e, v.e[i], o)]]
+      [] t.k = "map" -> [nil |-> FALSE, m |-> [i \in 1..Len(v.m) |-> <<v.m[i][1], Norm(t.e, v.m[i][2], o)>>]]
+      [] t.k = "ptr" -> IF Nullish(t, v, o) THEN [nil |-> TRUE] ELSE [nil |-> FALSE, e |-> Norm(t.e, v.e, o)]
+      [] t.k = "any" -> IF Nullish(t, v, o) THEN [nil |-> TRUE] ELSE [nil |-> FALSE, dt |-> v.dt, e |-> Norm(v.dt, v.e, o)]
+      [] t.k = "struct" -> [f |-> [i \in 1..Len(t.f) |-> Norm(t.f[i].t, v.f[i], o)]]
       [] OTHER -> v
 =============================================================================
